@@ -8,8 +8,14 @@ ASSUME = [
     'ownership scheme: each operation is run from an ARBITRARY owned state (every pointer field the object owns is NULL or a distinct live heap block, built by the harness -- not a bounded history), followed by the proved destructor, under CBMC\'s memory-leak, double-free and deallocated-dereference checks; arbitrary histories follow because every operation re-establishes the owned state (transitivity of requires/ensures, pen-and-paper)',
     'orc_code_free is a stub here (asserts the object is live, frees it); its real body is checked in unit orc_code_free',
     'strdup returns a fresh 8-byte string; orc_malloc aborts on failure',
-    'not covered: compile/recompile paths of orc_compiler_compile_program, executor runs, resident-memory growth, mmap\'ed region accounting',
+    'not covered: compile/recompile paths of orc_compiler_compile_program other than the early error return, executor runs, resident-memory growth, mmap\'ed region accounting',
 ]
+
+
+def c17gen():
+    from . import c17
+    c17.gen_source()
+    return c17.GEN
 
 
 def units(tier, seed, only=None):
@@ -24,6 +30,12 @@ def units(tier, seed, only=None):
         core.Unit('orc_program_reset', SRC, 'h_orc_program_reset', enforce=None, functions=['orc_program_reset', 'orc_program_free'], **K),
         core.Unit('orc_program_take_code', SRC, 'h_orc_program_take_code', enforce=None, functions=['orc_program_take_code', 'orc_program_free'], **K),
         core.Unit('orc_program_add_*', SRC, 'h_add_then_free', enforce=None, functions=['orc_program_add_temporary', 'orc_program_add_source', 'orc_program_add_destination', 'orc_program_add_parameter', 'orc_program_add_accumulator', 'orc_program_free'], **K),
+        # the compiler object on the early error path of orc_compiler_compile_program (real function, extracted copy of
+        # orccompiler.c with the variadic error function made non-variadic, see C17)
+        core.Unit('orc_compiler_compile_program:error-path', ['contracts/regalloc.c'], 'hp_compile_program_with_error', enforce='orc_compiler_compile_program',
+                  no_dfcc=True, defines=['REGALLOC_SRC="%s"' % c17gen()], unwind=10, timeout=600, object_bits=10, checks=[],
+                  cbmc_flags=['--no-standard-checks', '--memory-leak-check', '--pointer-check'],
+                  contract_text='a program that already carries an error: result UNKNOWN_PARSE and the compiler object handed in is released (memory-leak check); assume/assert form'),
     ]
     if only:
         us = [u for u in us if re.search(only, u.name)]
